@@ -212,6 +212,7 @@ package arvados
 // Background flush of one full block (goroutine body of pruneMemSegments,
 // verified as a sequential function).
 //@ func filenode.pruneMemSegments$1 property C09
+//@   requires idx >= 0
 //@   ghost perr error = nil
 //@   ghost loc string = ""
 //@   ghost released bool = false
